@@ -22,6 +22,12 @@ inductive BLine
   | close                                        -- `)`
   | elseOpen                                     -- `) else (`
   | elseIfOpen (text : String)                   -- `) else if … (`
+  -- the lines of scalar computations, structured so that `Sem/Cmd` can give them a meaning (same text as before)
+  | set (name value : String)                    -- `set "name=value"`
+  | setA (name l op r : String)                  -- `set /A "name=l<op>r"`   (`%` is written `%%`)
+  | ifSet (q l os r h a b : String)              -- `if qlq os qrq (set "h=a") else set "h=b"`
+  | andSet (l r h : String)                      -- `if l equ 1 (if r equ 1 (set "h=1") else set "h=0") else set "h=0"`
+  | orSet (l r h : String)                       -- `if l equ 1 (set "h=1") else if r equ 1 (set "h=1") else set "h=0"`
 deriving Repr, DecidableEq
 
 def BLine.render : BLine → String
@@ -35,6 +41,14 @@ def BLine.render : BLine → String
   | .close => ")"
   | .elseOpen => ") else ("
   | .elseIfOpen t => ") else " ++ t
+  | .set n v => "set \"" ++ n ++ "=" ++ v ++ "\""
+  | .setA n l op r => "set /A \"" ++ n ++ "=" ++ l ++ (if op == "%" then "%%" else op) ++ r ++ "\""
+  | .ifSet q l os r h a b =>
+      "if " ++ q ++ l ++ q ++ " " ++ os ++ " " ++ q ++ r ++ q ++ " (set \"" ++ h ++ "=" ++ a ++ "\") else set \"" ++ h ++ "=" ++ b ++ "\""
+  | .andSet l r h =>
+      "if " ++ l ++ " equ 1 (if " ++ r ++ " equ 1 (set \"" ++ h ++ "=1\") else set \"" ++ h ++ "=0\") else set \"" ++ h ++ "=0\""
+  | .orSet l r h =>
+      "if " ++ l ++ " equ 1 (set \"" ++ h ++ "=1\") else if " ++ r ++ " equ 1 (set \"" ++ h ++ "=1\") else set \"" ++ h ++ "=0\""
 
 structure St where
   startCode : List BLine := []          -- all buffers reversed
@@ -94,7 +108,7 @@ def nextHelperVar : BM String := fun s => .ok (s!"_h{s.varCounter}", { s with va
 
 def varAssignment (name value : String) (global : Bool) : BM Unit := do
   let s ← get
-  addLine (.raw (varAssignmentString s name value global))
+  addLine (.set (varName s name global) value)
 
 def varEvaluation (name : String) (global : Bool) : BM String := do
   let s ← get
@@ -198,7 +212,7 @@ def programStart : BM Unit := do
   addStartLine (.raw "@echo off")
   addStartLine (.raw "setlocal EnableDelayedExpansion")
   addStartLine (.raw "setlocal")
-  addStartLine (.raw "set \"_e=0\"")
+  addStartLine (.set "_e" "0")
 
 def sliceAssignmentOp (name index value dflt : String) (global : Bool) : BM Unit := do
   modify fun s => { s with sahReq := true }
@@ -251,7 +265,7 @@ def forStartOp : BM Unit := do
                             fors := s!"_f{s.forCounter}" :: s.fors, forCounter := s.forCounter + 1 }
   let s ← get
   let l ← currentFor
-  addLine (.raw ("set \"" ++ currentForVar s ++ "=\""))
+  addLine (.set (currentForVar s) "")
   addLine (.clabel l)
 
 def forIncrementStartOp : BM Unit := do
@@ -261,7 +275,7 @@ def forIncrementStartOp : BM Unit := do
 def forIncrementEndOp : BM Unit := do
   let s ← get
   addLine .close
-  addLine (.raw ("set \"" ++ currentForVar s ++ "=1\""))
+  addLine (.set (currentForVar s) "1")
 
 def forEndTail : List String → BM Unit
   | e :: rest => do
@@ -290,7 +304,7 @@ def contOp : BM Unit := do
 
 def panicOp (v : String) : BM Unit := do
   callEcho [v]
-  addLine (.raw "set \"_e=1\"")
+  addLine (.set "_e" "1")
   addLine (.goto "end")
 
 def writeFileOp (path content append : String) : BM Unit := do
@@ -301,7 +315,7 @@ def unaryOp (expr op : String) : BM String := do
   let h ← nextHelperVar
   if op == "!" then do
     let s ← get
-    addLine (.raw s!"if {expr} equ 1 ({varAssignmentString s h "0" false}) else {varAssignmentString s h "1" false}")
+    addLine (.ifSet "" expr "equ" "1" (varName s h false) "0" "1")
     varEvaluation h false
   else fail s!"unknown unary operator \"{op}\""
 
@@ -315,7 +329,7 @@ def binaryOp (left op right : String) (vt : ValueType) : BM String := do
   | .int =>
     if op == "*" || op == "/" || op == "+" || op == "-" || op == "%" then do
       let s ← get
-      addLine (.raw ("set /A \"" ++ varName s h false ++ "=" ++ left ++ (if op == "%" then "%%" else op) ++ right ++ "\""))
+      addLine (.setA (varName s h false) left op right)
       varEvaluation h false
     else notAllowedBin op vt
   | .string =>
@@ -329,7 +343,7 @@ def comparisonOpWith (os q left op right : String) (vt : ValueType) : BM String 
   if os.length == 0 then fail s!"comparison {op} is not allowed on type {vt.name}" else do
   let h ← nextHelperVar
   let s ← get
-  addLine (.raw s!"if {q}{left}{q} {os} {q}{right}{q} ({varAssignmentString s h "1" false}) else {varAssignmentString s h "0" false}")
+  addLine (.ifSet q left os right (varName s h false) "1" "0")
   varEvaluation h false
 
 def comparisonOp (left op right : String) (vt : ValueType) : BM String :=
@@ -339,10 +353,10 @@ def logicalOp (left op right : String) : BM String := do
   let h ← nextHelperVar
   let s ← get
   if op == "&&" then do
-    addLine (.raw s!"if {left} equ 1 (if {right} equ 1 ({varAssignmentString s h "1" false}) else {varAssignmentString s h "0" false}) else {varAssignmentString s h "0" false}")
+    addLine (.andSet left right (varName s h false))
     varEvaluation h false
   else if op == "||" then do
-    addLine (.raw s!"if {left} equ 1 ({varAssignmentString s h "1" false}) else if {right} equ 1 ({varAssignmentString s h "1" false}) else {varAssignmentString s h "0" false}")
+    addLine (.orSet left right (varName s h false))
     varEvaluation h false
   else fail s!"unknown logical operator \"{op}\""
 
